@@ -157,7 +157,10 @@ Init == /\ tree \in Trees
         /\ d = D0 /\ v = V0 /\ job = J0
         /\ reached = {<<>>} /\ target = <<>>
         /\ delivered = {} /\ plan = Order /\ ncrash = 0 /\ wr = NoWrite
-        /\ act = IF EmitOn THEN ToJson([op |-> "Hist", n |-> tree.n, parent |-> tree.parent, order |-> Order]) ELSE ""
+        \* ret of the first label: over the whole experiment no restart shows an inconsistency (evaluated by the
+        \* harness on the real node independently of the steps below)
+        /\ act = IF EmitOn THEN ToJson([op |-> "Hist", n |-> tree.n, parent |-> tree.parent, order |-> Order,
+                                        ret |-> [problems |-> <<>>]]) ELSE ""
 
 -----------------------------------------------------------------------------
 \* ProcessBlock entry
